@@ -44,6 +44,17 @@ func (c c09Case) String() string {
 	return fmt.Sprintf("callers=%d regions=%d servers=%d fault-phase=%dms queue=%d scans=%v", c.Callers, c.Regions, c.Servers, c.FaultMS, c.Queue, c.Scans)
 }
 
+const (
+	c09StressQuick    = 12
+	c09StressThorough = 48
+)
+
+// c09Borrowed: workloads of other checks that are run under the race detector
+// as well (their concurrency is of other kinds than the stress runs': blocked
+// writes, cancellations, Close at chosen points, scanners with renewers,
+// connection bursts, batches with per-call contexts).
+var c09Borrowed = []string{"C03", "C04", "C07", "C12", "C13", "C14", "C18", "C19", "C20", "C02", "C06", "C17"}
+
 func runC09Case(c *fw.Ctx, id string, cs c09Case) {
 	cl := sim.NewCluster(cs.Seed, cs.Servers)
 	defer cl.Close()
@@ -335,21 +346,36 @@ func init() {
 			"seeded delays up to 3 ms. Each run ends with a fault-free phase, a final round over all regions and quiescence " +
 			"checks (no caller blocked, no cached region unavailable, no region holding a dead connection); panics and fatal " +
 			"errors end the child process and are attributed by the crash monitor; race reports with gohbase frames are " +
-			"violations. distinct = hash of the order of hook-point events per run (interleaving signature)",
+			"violations. Further batches lend the race detector and the crash monitor to slices of the other checks' quick workloads " +
+			"(C02 C03 C04 C06 C07 C12 C13 C14 C17 C18 C19 C20: blocked writes, cancellations, Close at chosen points, renewing scanners, " +
+			"connection bursts, per-call contexts); what those workloads' own oracles say is left to their checks. " +
+			"distinct = hash of the order of hook-point events per run (interleaving signature)",
 		Assumptions: []string{"a clean race log only covers accesses that actually ran concurrently", "schedule coverage is what seeds and delays realise"},
 		Plan: func(tier string) fw.Plan {
 			if tier == "thorough" {
-				return fw.Plan{Batches: 48, Parallel: 12, Timeout: 40 * time.Minute}
+				return fw.Plan{Batches: c09StressThorough + 4*len(c09Borrowed), Parallel: 12, Timeout: 60 * time.Minute}
 			}
-			return fw.Plan{Batches: 12, Parallel: 12, Timeout: 10 * time.Minute}
+			return fw.Plan{Batches: c09StressQuick + len(c09Borrowed), Parallel: 16, Timeout: 15 * time.Minute}
 		},
 		Floors: func(tier string) map[string]int64 {
 			return map[string]int64{"runs": 120, "requests_completed": 20000, "fault_kill-conns": 50, "fault_split": 20, "fault_offline-burst": 20,
-				"fault_move": 20, "fault_abort": 20, "fault_dial-fail": 20, "hook_point_events": 1000, "quiescence_checks": 30, "distinct": 100}
+				"fault_move": 20, "fault_abort": 20, "fault_dial-fail": 20, "hook_point_events": 1000, "quiescence_checks": 30, "distinct": 100, "borrowed_workload_batches": 12}
 		},
 		Run: func(c *fw.Ctx) {
+			stress := c.Pick(c09StressQuick, c09StressThorough)
+			if c.Batch >= stress {
+				// the remaining batches lend the race detector and the crash monitor to
+				// slices of the other checks' workloads
+				k := c.Batch - stress
+				prop := c09Borrowed[k%len(c09Borrowed)]
+				nb := fw.Lookup(prop).Plan("quick").Batches
+				b := int((c.Seed + int64(k/len(c09Borrowed))) % int64(nb))
+				c.Begin(fmt.Sprintf("borrowed-%s-%d", prop, b), prop)
+				c.Borrow(prop, b, nb)
+				return
+			}
 			r := c.Rand("c09")
-			n := c.Pick(144, 2880) / c.NBatches
+			n := c.Pick(144, 2880) / stress
 			for i := 0; i < n; i++ {
 				cs := c09Case{Seed: r.Int63(), Callers: []int{8, 32, 128}[r.Intn(3)], Regions: []int{1, 4, 16}[r.Intn(3)], Servers: []int{1, 2, 4}[r.Intn(3)],
 					FaultMS: c.Pick(500, 1500), Queue: []int{1, 5, 100}[r.Intn(3)], Scans: r.Intn(2) == 0}
